@@ -196,6 +196,18 @@ def rule_nowrap(prog):
                 if not arith:
                     continue
                 bad = short.split("_")[0] in ("wrapping", "overflowing", "unchecked")
+                if bad:
+                    # only a result that becomes run-time state counts (a hash or a checksum may wrap as it likes): the
+                    # destination is a field, or a local that is copied into a field / returned to a caller
+                    d = t["dest"]
+                    into_state = bool(proj(d))
+                    if not into_state:
+                        for b2 in f.reachable():
+                            for st in f.stmts(b2):
+                                if st["k"] == "assign" and st["rv"]["k"] == "use" and is_place(st["rv"]["a"]) and not proj(st["rv"]["a"]) \
+                                        and st["rv"]["a"]["l"] == d["l"] and (proj(st["p"]) or st["p"]["l"] == 0):
+                                    into_state = True
+                    bad = into_state
                 key = "%s/%s%s" % (f.norm.split("::{closure")[0].split("::")[-1], short, "#%d" % k if k else "")
                 k += 1
                 res.fn(f)
